@@ -71,14 +71,14 @@ impl<A: Alg> Sys<A> {
         for i in 0..self.n {
             let got = A::observe(&t.ask(i, i));
             let exp = A::fold(&s.model[i..=i]);
-            if got != exp {
+            if !A::accept(&got, &s.model[i..=i]) {
                 return Err(format!("element {i}: ask({i},{i}) would return {:?}, the plain array holds {:?}", got, exp));
             }
         }
         // the whole range as well (root aggregate)
         let got = A::observe(&t.ask(0, self.n - 1));
         let exp = A::fold(&s.model[..]);
-        if got != exp {
+        if !A::accept(&got, &s.model[..]) {
             return Err(format!("ask(0,{}) would return {:?}, fold of the plain array is {:?}", self.n - 1, got, exp));
         }
         Ok(())
@@ -235,7 +235,7 @@ impl<A: Alg> System for Sys<A> {
                 let got = A::observe(&s.tree.ask(*l as usize, *r as usize));
                 if judge01 {
                     let exp = A::fold(&s.model[*l as usize..=*r as usize]);
-                    if got != exp {
+                    if !A::accept(&got, &s.model[*l as usize..=*r as usize]) {
                         return Err(format!("ask({l},{r}) returned {:?}; left-to-right fold of the plain array {:?} is {:?}", got, s.model, exp));
                     }
                 }
@@ -267,8 +267,8 @@ impl<A: Alg> System for Sys<A> {
                 }
                 for o in log.into_inner() {
                     let ok = match A::obs_len(&o) {
-                        Some(k) => k >= 1 && l + k <= self.n && A::fold(&s.model[l..l + k]) == o,
-                        None => (l..self.n).any(|r| A::fold(&s.model[l..=r]) == o),
+                        Some(k) => k >= 1 && l + k <= self.n && A::accept(&o, &s.model[l..l + k]),
+                        None => (l..self.n).any(|r| A::accept(&o, &s.model[l..=r])),
                     };
                     if !ok {
                         return Err(format!("lower_bound({l}, {:?}) showed the predicate the aggregate {:?}, which is not the in-order merge of [{l}..=r] for any r (array {:?})", p, o, s.model));
@@ -291,8 +291,8 @@ impl<A: Alg> System for Sys<A> {
                 }
                 for o in log.into_inner() {
                     let ok = match A::obs_len(&o) {
-                        Some(k) => k >= 1 && k <= r + 1 && A::fold(&s.model[r + 1 - k..=r]) == o,
-                        None => (0..=r).any(|l| A::fold(&s.model[l..=r]) == o),
+                        Some(k) => k >= 1 && k <= r + 1 && A::accept(&o, &s.model[r + 1 - k..=r]),
+                        None => (0..=r).any(|l| A::accept(&o, &s.model[l..=r])),
                     };
                     if !ok {
                         return Err(format!("lower_bound_rev({r}, {:?}) showed the predicate the aggregate {:?}, which is not the in-order merge of [l..={r}] for any l (array {:?})", p, o, s.model));
@@ -391,6 +391,7 @@ fn replay_part(label: &str, n: usize, mode: Mode, hist: &[Value]) -> Result<(), 
             "MinAdd<i64>" => god!(AlgMinAdd),
             "MaxAdd<i64>" => god!(AlgMaxAdd),
             "SumAdd<i64>" => god!(AlgSumAdd),
+            "Flip" => god!(AlgFlip),
             "Comb<MinAdd,MaxAdd>" => god!(Comb<AlgMinAdd, AlgMaxAdd>),
             "Comb<Comb<MinAdd,MaxAdd>,SumAdd>" => god!(Comb<Comb<AlgMinAdd, AlgMaxAdd>, AlgSumAdd>),
             _ => {
@@ -413,6 +414,13 @@ fn replay_part(label: &str, n: usize, mode: Mode, hist: &[Value]) -> Result<(), 
         "Comb<MinAdd,MaxAdd>" => go!(Comb<AlgMinAdd, AlgMaxAdd>),
         "Comb<Comb<MinAdd,MaxAdd>,SumAdd>" => go!(Comb<Comb<AlgMinAdd, AlgMaxAdd>, AlgSumAdd>),
         "Comb<Sum<Z3>,Comb<Min,Max>>" => go!(Comb<AlgSumZ3, Comb<AlgMinU8, AlgMaxU8>>),
+        "Flip" => go!(AlgFlip),
+        "Comb<W,W>" => go!(Comb<AlgW, AlgW>),
+        "Comb<Flip,Comb<Flip,Flip>>" => go!(Comb<AlgFlip, Comb<AlgFlip, AlgFlip>>),
+        "MinAdd@MAX" => go!(AlgMinAddExt),
+        "MaxAdd@MIN" => go!(AlgMaxAddExt),
+        "Min<Rec>" => go!(AlgMinRec),
+        "Max<Rec>" => go!(AlgMaxRec),
         _ => {
             eprintln!("replay: unknown algebra {label}");
             std::process::exit(2)
@@ -632,6 +640,25 @@ fn main() {
         parts.push(run_part::<Comb<AlgSumZ3, Comb<AlgMinU8, AlgMaxU8>>>("Comb<Sum<Z3>,Comb<Min,Max>>", n, mode, None, true, wall));
     }
 
+    // Part C2: a lazy item with a data-less modifier (M = ()), a Combinator of two NON-commutative parts,
+    // elements at the extreme values of the type, records compared by key only
+    for n in 1..=(if quick { 5 } else { 6 }) {
+        parts.push(run_part::<AlgFlip>("Flip", n, mode, None, true, wall));
+    }
+    for n in 1..=(if quick { 4 } else { 5 }) {
+        parts.push(run_part::<Comb<AlgW, AlgW>>("Comb<W,W>", n, mode, None, true, wall));
+    }
+    for n in 1..=(if quick { 3 } else { 4 }) {
+        parts.push(run_part::<Comb<AlgFlip, Comb<AlgFlip, AlgFlip>>>("Comb<Flip,Comb<Flip,Flip>>", n, mode, None, true, wall));
+    }
+    let ext: &[(usize, usize)] = if quick { &[(1, 3), (2, 3), (3, 3), (4, 2)] } else { &[(1, 4), (2, 4), (3, 4), (4, 3), (5, 3)] };
+    for &(n, d) in ext {
+        parts.push(run_part::<AlgMinAddExt>("MinAdd@MAX", n, mode, Some(d), true, wall));
+        parts.push(run_part::<AlgMaxAddExt>("MaxAdd@MIN", n, mode, Some(d), true, wall));
+        parts.push(run_part::<AlgMinRec>("Min<Rec>", n, mode, Some(d), true, wall));
+        parts.push(run_part::<AlgMaxRec>("Max<Rec>", n, mode, Some(d), true, wall));
+    }
+
     // Part D: constructors and point assignments fed with elements that carry a stale pending modifier
     // (an element read back from another tree after a range modification), bounded depth
     let dn: &[(usize, usize)] = if quick { &[(1, 3), (2, 3), (3, 3), (4, 2)] } else { &[(1, 4), (2, 4), (3, 4), (4, 3), (5, 3), (6, 2)] };
@@ -639,6 +666,7 @@ fn main() {
         parts.push(run_part::<AlgW>("W+stale-tags", n, mode, Some(d), true, wall));
         parts.push(run_part::<AlgA3>("A3+stale-tags", n, mode, Some(d), true, wall));
         parts.push(run_part::<AlgFr>("Fr+stale-tags", n, mode, Some(d), true, wall));
+        parts.push(run_part::<AlgFlip>("Flip+stale-tags", n, mode, Some(d), true, wall));
         parts.push(run_part::<AlgSumAddZ4>("SumAdd<Z4>+stale-tags", n, mode, Some(d), true, wall));
         parts.push(run_part::<AlgMinAdd>("MinAdd<i64>+stale-tags", n, mode, Some(d), true, wall));
         parts.push(run_part::<AlgMaxAdd>("MaxAdd<i64>+stale-tags", n, mode, Some(d), true, wall));
